@@ -1,29 +1,45 @@
 """C10 - ASCII armor is a faithful, checksummed, correctly labelled envelope (partial: constants, labels, widths, guards).
 
-  C10.1 crc24: init 0xB704CE, generator 0x1864CFB, per octet (<< 16), 8 rounds of (<< 1, test bit 0x1000000), result mask 0xFFFFFF
+  C10.1 crc24 computes the RFC 4880 6.1 CRC-24 (init 0xB704CE, generator 0x1864CFB, 24-bit result): the function body is folded by
+        the checker-side interpreter on every one-octet input and a set of multi-octet inputs and compared with the RFC algorithm
   C10.2 __str__: payload and CRC derive from the same binary export; CRC written as exactly three octets; '=' prefix; same label in
         BEGIN and END; the reader's CRC group is exactly four base64 characters
-  C10.3 writer line width (64) <= 76 and <= the reader's per-line bound
+  C10.3 writer line width (64) <= 76, on a base64 quantum, and every line the writer can produce is in the reader's body language
   C10.4 block labels by object kind (RFC 4880 6.2)
   C10.5 kind checks of the three parse methods: a present label outside the accepted set raises before any packet is consumed;
         a cleartext block needs its cleartext group
   C10.6 a CRC mismatch is reported (compare crc24(body) with the decoded CRC; warn or raise)
   C10.7 armor header lines: writer 'key: value\\n' and reader separator ': ' agree; armor is searched for inside surrounding text
+
+All rules work on interpreter values (sa/interp.py), piece sequences of the texts the code builds (sa/strterm.py) and regular
+languages (sa/regexast.py); none looks at variable names, statement shapes or the spelling of a literal.
 """
 import ast
 import re
 
-from sa.interp import alpha, Interp, Scenario, Sym, Const, Bytes, Frame, State, render
-from sa.loader import AnalysisError, dotted, FunctionInfo
+from sa.interp import Interp, Scenario, Sym, Const, render
+from sa.loader import AnalysisError, dotted
 from sa import regexast
+from sa import strterm as T
+from sa.guards import atoms, eval_skel
 
-noinline = lambda f: False  # noqa: E731
+from sa.vocab import FUNCTIONS as _VOCAB_FUNCS
+
+
+def noinline(f):
+    """Inline policy of every scenario here: nothing of the reference vocabulary is looked into (each anchor is analysed on its own), but
+    a helper an edit introduced (a name the reference tree does not have) is transparent - also where the canonicaliser could not
+    splice it in (same new name defined in several classes)."""
+    return f.name not in _VOCAB_FUNCS and not (f.name.startswith('__') and f.name.endswith('__'))
+
+B64 = '[A-Za-z0-9+/]'
+TEXT_CODECS = ('latin-1', 'latin1', 'iso-8859-1', 'ascii', 'us-ascii', 'utf-8', 'utf8')   # all agree on the base64 alphabet
 
 
 def run(rep, prog, tier):
-    rep.rule('C10.1', 'CRC-24 constants and loop structure = RFC 4880 6.1', floor=7)
+    rep.rule('C10.1', 'crc24 is the CRC-24 of RFC 4880 6.1 (constants, per-octet xor at bit 16, eight rounds, 24-bit mask)', floor=6)
     rep.rule('C10.2', 'payload and CRC from the same octets; 3-octet CRC; labels; reader CRC group', floor=6)
-    rep.rule('C10.3', 'line width 64 <= 76 and within the reader bound', floor=2)
+    rep.rule('C10.3', 'line width 64 <= 76 and within the reader language', floor=2)
     rep.rule('C10.4', 'block labels per object kind', floor=5)
     rep.rule('C10.5', 'kind checks: wrong label raises before parsing packets', floor=14)
     rep.rule('C10.6', 'CRC mismatch is reported', floor=3)
@@ -32,17 +48,186 @@ def run(rep, prog, tier):
 
     A = prog.cls('pgpy.types', 'Armorable')
     crc(rep, prog, A)
-    writer(rep, prog, A)
+    sep = writer(rep, prog, A)
     labels(rep, prog)
     kind_checks(rep, prog)
-    reader(rep, prog, A)
+    reader(rep, prog, A, sep)
 
 
-def _const(A, name):
-    v = A.attrs.get(name)
-    if v is None:
-        raise AnalysisError('Armorable.%s vanished' % name)
-    return ast.literal_eval(v)
+# ------------------------------------------------------------------------------------------------ helpers
+def _own_params(f):
+    """Parameter names without the receiver."""
+    ps = list(f.params)
+    if f.cls is not None and ps and not any(dotted(d) == 'staticmethod' for d in f.node.decorator_list):
+        ps = ps[1:]
+    return ps
+
+
+def _receiver(f):
+    if f.cls is not None and f.params and not any(dotted(d) == 'staticmethod' for d in f.node.decorator_list):
+        return f.params[0]
+    return None
+
+
+def _const_str(node):
+    if isinstance(node, ast.Constant) and isinstance(node.value, (str, bytes)):
+        return node.value
+    if isinstance(node, ast.BinOp) and isinstance(node.op, ast.Add):
+        l, r = _const_str(node.left), _const_str(node.right)
+        if l is not None and r is not None and type(l) is type(r):
+            return l + r
+    if isinstance(node, ast.JoinedStr) and all(isinstance(v, ast.Constant) for v in node.values):
+        return ''.join(str(v.value) for v in node.values)
+    return None
+
+
+def flags_of(x):
+    """re flag bits named in an expression (node or rendered text): re.MULTILINE | re.X ..., or a plain integer."""
+    if x is None:
+        return 0
+    text = x if isinstance(x, str) else ast.unparse(x)
+    bits = 0
+    for name in re.findall(r'\bre\.([A-Z]+)\b', text):
+        bits |= int(getattr(re, name, 0))
+    m = re.match(r'^\(?(\d+)\)?$', text.strip())
+    if m:
+        bits |= int(m.group(1))
+    return bits
+
+
+def _const_regex(A):
+    v = A.attrs.get('__armor_regex')
+    if not (isinstance(v, ast.Call) and dotted(v.func) == 're.compile' and v.args):
+        raise AnalysisError('Armorable.__armor_regex is not a re.compile(...) literal')
+    pat = _const_str(v.args[0])
+    if pat is None:
+        raise AnalysisError('Armorable.__armor_regex: pattern is not a literal')
+    flags = flags_of(v.args[1]) if len(v.args) > 1 else 0
+    for k in v.keywords:
+        if k.arg == 'flags':
+            flags |= flags_of(k.value)
+    return pat, flags
+
+
+def armor_tree(A):
+    """(normalised tree, group name -> id) of the armor expression."""
+    pat, flags = _const_regex(A)
+    try:
+        tree, p = regexast.norm_pattern(pat, flags)
+    except regexast.Unsupported as ex:
+        raise AnalysisError('armor regex: %s' % ex)
+    return tree, dict(p.state.groupdict)
+
+
+def group_lang(A, name):
+    tree, groups = armor_tree(A)
+    hit = regexast.find_group(tree, groups.get(name)) if name in groups else None
+    if hit is None:
+        return None
+    try:
+        return regexast.Lang(hit[0][2])
+    except regexast.Unsupported as ex:
+        raise AnalysisError('armor regex, group %s: %s' % (name, ex))
+
+
+def _walk(node):
+    return ast.walk(node) if node is not None else []
+
+
+def _calls_named(node, names):
+    """Call nodes of a term whose function's last name component is in `names`."""
+    out = []
+    for n in _walk(node):
+        if isinstance(n, ast.Call):
+            f = n.func
+            last = f.attr if isinstance(f, ast.Attribute) else f.id if isinstance(f, ast.Name) else None
+            if last in names:
+                out.append(n)
+    return out
+
+
+def refs_group(node, name):
+    """Does the term read the regex group `name` of a match (m.groupdict()[name], m.group(name), m[name], d.get(name))?"""
+    for n in _walk(node):
+        if isinstance(n, ast.Subscript) and isinstance(n.slice, ast.Constant) and n.slice.value == name:
+            return True
+        if isinstance(n, ast.Call) and isinstance(n.func, ast.Attribute) and n.func.attr in ('group', 'get') and n.args and \
+                isinstance(n.args[0], ast.Constant) and n.args[0].value == name:
+            return True
+    return False
+
+
+B64_ENCODERS = ('base64.b64encode(_X)', 'base64.standard_b64encode(_X)', 'b64encode(_X)', 'standard_b64encode(_X)',
+                'binascii.b2a_base64(_X, newline=False)', 'b2a_base64(_X, newline=False)')
+OTHER_ENCODERS = ('urlsafe_b64encode', 'b32encode', 'b16encode', 'a85encode', 'b85encode', 'encodebytes', 'encodestring', 'hexlify', 'b2a_hex', 'b2a_uu',
+                  'b2a_qp', 'hex')
+
+
+def b64text_of(node):
+    """X if the term is the text of the RFC 4648 base64 of X (standard alphabet, no line feed), decoded with an ASCII-compatible codec."""
+    inner = None
+    for pat in ('_E.decode(_C)', 'str(_E, _C)', '_E.decode()', 'str(_E, encoding=_C)', '_E.decode(encoding=_C)'):
+        m = T.match(node, pat)
+        if m is not None:
+            c = m.get('_C')
+            if c is None or (isinstance(c, ast.Constant) and isinstance(c.value, str) and c.value.lower() in TEXT_CODECS):
+                inner = m['_E']
+                break
+    if inner is None:
+        return None
+    m = T.match_any(inner, B64_ENCODERS)
+    return m['_X'] if m is not None else None
+
+
+def other_encoding(node):
+    """Name of a non-base64 / non-standard-alphabet encoder the term applies (urlsafe, base32, hex ...), else None."""
+    hit = _calls_named(node, OTHER_ENCODERS) if node is not None else []
+    if hit:
+        f = hit[0].func
+        return f.attr if isinstance(f, ast.Attribute) else f.id
+    return None
+
+
+def is_export(node, selfn):
+    """The binary export of the object itself (self.__bytes__() / self.__bytearray__() / bytes(self) all render to one of these)."""
+    return T.show(node) in ('%s.__bytearray__()' % selfn, selfn, 'bytes(%s)' % selfn, 'bytearray(%s)' % selfn)
+
+
+# ------------------------------------------------------------------------------------------------ C10.1
+def ref_crc24(octets):
+    """RFC 4880 6.1, transcribed."""
+    crc = 0xB704CE
+    for o in octets:
+        crc ^= o << 16
+        for _ in range(8):
+            crc <<= 1
+            if crc & 0x1000000:
+                crc ^= 0x1864CFB
+    return crc & 0xFFFFFF
+
+
+def fold_crc(prog, f, octets, kind):
+    """Value the interpreter folds Armorable.crc24 to on a concrete octet string of the given python type (nothing is executed:
+    the loops are unrolled over constants by the checker's evaluator).  None if the body does not fold to one integer."""
+    ps = _own_params(f)
+    if len(ps) < 1:
+        raise AnalysisError('Armorable.crc24 takes no data argument')
+    p = ps[0]
+    data = Const({'bytes': bytes, 'bytearray': bytearray}[kind](octets))
+    vals = [Const(o) for o in octets]
+    t = render(data)
+    unroll = {}
+    for k in (t, 'iter(%s)' % t, 'bytearray(%s)' % t, 'bytes(%s)' % t, 'memoryview(%s)' % t, 'list(%s)' % t):
+        unroll[k] = vals
+    sc = Scenario(args={p: data}, unroll=unroll, inline=noinline)
+    try:
+        outs = [s for s in Interp(prog, sc).run(f)]
+    except AnalysisError:
+        return None
+    if len(outs) != 1 or outs[0].raised is not None or not isinstance(outs[0].ret, Const) or isinstance(outs[0].ret.value, bool) or \
+            not isinstance(outs[0].ret.value, int):
+        return None
+    return outs[0].ret.value
 
 
 def crc(rep, prog, A):
@@ -50,234 +235,694 @@ def crc(rep, prog, A):
     if f is None:
         raise AnalysisError('Armorable.crc24 vanished')
     rep.saw(fn=f)
-    init, poly = _const(A, '__crc24_init'), _const(A, '__crc24_poly')
-    rep.check(init == 0xB704CE, 'C10.1', 'Armorable.__crc24_init', hex(init), 'CRC-24 initial value is 0xB704CE (RFC 4880 6.1)', where=A.where,
-              expected='0xb704ce', found=hex(init))
-    rep.check(poly == 0x1864CFB, 'C10.1', 'Armorable.__crc24_poly', hex(poly), 'CRC-24 generator is 0x1864CFB (RFC 4880 6.1)', where=A.where,
-              expected='0x1864cfb', found=hex(poly))
-    src = ast.unparse(f.node)
-    # structure: crc = init ; for b in data: crc ^= b << 16 ; for i in range(8): crc <<= 1 ; if crc & 0x1000000: crc ^= poly ; return crc & 0xFFFFFF
-    outer = [n for n in f.node.body if isinstance(n, ast.For)]
-    ok_outer = len(outer) == 1
-    rep.check(ok_outer, 'C10.1', 'Armorable.crc24', 'one loop over the data', 'the CRC is accumulated octet by octet', where=f.where)
-    if ok_outer:
-        o = outer[0]
-        bvar = ast.unparse(o.target)
-        x = [n for n in o.body if isinstance(n, ast.AugAssign) and isinstance(n.op, ast.BitXor)]
-        rep.check(len(x) == 1 and ast.unparse(x[0].value).replace(' ', '') in ('%s<<16' % bvar, '(%s<<16)' % bvar), 'C10.1', 'Armorable.crc24',
-                  'per octet: %s' % (ast.unparse(x[0]) if x else None), 'each octet is xored into bits 16..23', where=f.where, expected='crc ^= b << 16')
-        inner = [n for n in o.body if isinstance(n, ast.For)]
-        ok_in = len(inner) == 1 and ast.unparse(inner[0].iter).replace(' ', '') in ('range(8)', 'range(0,8)')
-        rep.check(ok_in, 'C10.1', 'Armorable.crc24', 'inner loop %s' % (ast.unparse(inner[0].iter) if inner else None), 'eight shift rounds per octet', where=f.where,
-                  expected='for i in range(8)')
-        if inner:
-            b = inner[0].body
-            sh = [n for n in b if isinstance(n, ast.AugAssign) and isinstance(n.op, ast.LShift)]
-            iff = [n for n in b if isinstance(n, ast.If)]
-            rep.check(len(sh) == 1 and ast.unparse(sh[0].value) == '1' and b.index(sh[0]) < (b.index(iff[0]) if iff else 99), 'C10.1', 'Armorable.crc24',
-                      'shift %s' % (ast.unparse(sh[0]) if sh else None), 'each round shifts left by one before testing the overflow bit', where=f.where)
-            okf = len(iff) == 1 and ast.unparse(iff[0].test).replace(' ', '') in ('crc&16777216', 'crc&0x1000000') and len(iff[0].body) == 1 and \
-                isinstance(iff[0].body[0], ast.AugAssign) and isinstance(iff[0].body[0].op, ast.BitXor) and '__crc24_poly' in ast.unparse(iff[0].body[0].value)
-            rep.check(okf, 'C10.1', 'Armorable.crc24', 'overflow test %s' % (ast.unparse(iff[0].test) if iff else None),
-                      'when bit 24 is set the generator is xored in', where=f.where, expected='if crc & 0x1000000: crc ^= poly')
-    rets = [n for n in ast.walk(f.node) if isinstance(n, ast.Return)]
-    rep.check(len(rets) == 1 and ast.unparse(rets[0].value).replace(' ', '') in ('crc&16777215', 'crc&0xFFFFFF'), 'C10.1', 'Armorable.crc24',
-              'return %s' % (ast.unparse(rets[0].value) if rets else None), 'the result is the low 24 bits', where=f.where, expected='crc & 0xFFFFFF')
-    ini = [n for n in f.node.body if isinstance(n, ast.Assign) and ast.unparse(n.targets[0]) == 'crc']
-    rep.check(len(ini) == 1 and '__crc24_init' in ast.unparse(ini[0].value), 'C10.1', 'Armorable.crc24', 'initialisation %s' % (ast.unparse(ini[0]) if ini else None),
-              'the accumulator starts at the RFC initial value', where=f.where)
+    # the named constants, where the class still has them (their use is decided by the folding below)
+    for name, want, what in (('__crc24_init', 0xB704CE, 'initial value'), ('__crc24_poly', 0x1864CFB, 'generator')):
+        v = A.attrs.get(name)
+        if v is None:
+            continue
+        try:
+            val = ast.literal_eval(v)
+        except Exception:
+            continue
+        rep.check(val == want, 'C10.1', 'Armorable.%s' % name, hex(val) if isinstance(val, int) else repr(val),
+                  'CRC-24 %s is %s (RFC 4880 6.1)' % (what, hex(want)), where=A.where, expected=hex(want), found=hex(val) if isinstance(val, int) else val)
+    vectors = [('empty input', [[]]),
+               ('every one-octet input', [[o] for o in range(256)]),
+               ('two-octet inputs', [[0, 0], [0, 1], [1, 0], [0x80, 0], [0xff, 0xff], [0xa5, 0x5a], [0x12, 0x34]]),
+               ('"123456789" (check value 0x21CF02)', [list(b'123456789')]),
+               ('twelve octets', [[0xff] * 12, [0] * 12, list(range(0xf4, 0x100))]),
+               # inputs that drive the RFC register through its boundary states: all zero, exactly 0x1000000 after a shift (only bit 24
+               # set), 0x1FFFFFE (all ones shifted), 0x800000 / 0x7FFFFF before a shift - where a comparison differs from a bit test
+               ('register boundary states', [list(bytes.fromhex(h)) for h in ('b704ce', 'b704ce80', 'b704ce00', '7422b300', 'f55af600', '367c8b00',
+                                                                              '71e68780', '15b18d00', 'd697f000', 'b7044e')])]
+    if ref_crc24(b'123456789') != 0x21CF02:     # pragma: no cover   (the checker's own transcription of the RFC)
+        raise AnalysisError('checker-side CRC-24 reference is wrong')
+    for kind in ('bytearray', 'bytes'):
+        for title, inputs in vectors:
+            bad = None
+            for octets in inputs:
+                got = fold_crc(prog, f, octets, kind)
+                if got is None:
+                    raise AnalysisError('Armorable.crc24 does not fold to an integer on %s input %s: unmodelled shape' % (kind, bytes(octets).hex()))
+                if got != ref_crc24(octets):
+                    bad = (octets, got)
+                    break
+            rep.check(bad is None, 'C10.1', 'Armorable.crc24', '%s (%s)' % (title, kind),
+                      'crc24 must equal the RFC 4880 6.1 CRC-24 (init 0xB704CE; each octet xored in at bit 16; eight rounds of shift-left '
+                      'and conditional xor with 0x1864CFB on bit 24; result masked to 24 bits)', where=f.where,
+                      expected=bad and 'crc24(%s) = %s' % (bytes(bad[0]).hex() or "b''", hex(ref_crc24(bad[0]))),
+                      found=bad and hex(bad[1]), scenario='%s/%s' % (kind, title))
+
+
+# ------------------------------------------------------------------------------------------------ C10.2 / C10.3 / C10.7 writer
+ARMOR_LAYOUT = re.compile(r'^-----BEGIN PGP (?P<l1>[^\n]*?)-----\n(?P<hdr>.*?)\n(?P<body>.*?)\n=(?P<crc>[^\n]*?)\n-----END PGP (?P<l2>[^\n]*?)-----\n$', re.S)
+
+
+def _sub(table, s):
+    """Pieces of a substring of a layout string."""
+    out = []
+    for ch in s:
+        if ch in table:
+            out.append(table[ch])
+        elif out and out[-1][0] == 'L':
+            out[-1] = ('L', out[-1][1] + ch)
+        else:
+            out.append(('L', ch))
+    return out
+
+
+def _chunk_width(pattern):
+    """n if re.findall(pattern, text) cuts a text without line feeds into consecutive pieces of n characters (last one shorter): .{1,n} greedy."""
+    try:
+        tree, p = regexast.norm_pattern(pattern, 0)
+    except (regexast.Unsupported, re.error):
+        return None
+    if p.state.groups != 1 or len(tree) != 1 or tree[0][0] != 'rep' or tree[0][1] != 1 or tree[0][2] is None or not tree[0][3]:
+        return None
+    inner = tree[0][4]
+    b64 = frozenset(ord(c) for c in 'ABCDEFGHIJKLMNOPQRSTUVWXYZabcdefghijklmnopqrstuvwxyz0123456789+/=')
+    if len(inner) == 1 and inner[0][0] == 'set' and b64 <= inner[0][1]:
+        return tree[0][2]
+    return None
 
 
 def writer(rep, prog, A):
     f = A.methods.get('__str__')
+    if f is None:
+        raise AnalysisError('Armorable.__str__ vanished')
     rep.saw(fn=f)
-    fmt = _const(A, '__armor_fmt')
-    rep.check(fmt.count('{block_type}') == 2 and fmt.startswith('-----BEGIN PGP {block_type}-----\n') and fmt.endswith('-----END PGP {block_type}-----\n'),
-              'C10.2', 'Armorable.__armor_fmt', 'BEGIN/END use the same label', 'header and tail lines carry the same block label', where=A.where)
-    rep.check('\n={crc}\n' in fmt and '{headers}\n{packet}\n' in fmt, 'C10.2', 'Armorable.__armor_fmt', 'layout', 'headers, blank line, payload, =CRC',
-              where=A.where, found=fmt)
-    for s in Interp(prog, Scenario(inline=noinline)).run(f):
-        fm = [c for c in s.calls if c[0].endswith('.format') and 'block_type' in c[2]]
-        if len(fm) != 1:
-            raise AnalysisError('Armorable.__str__: armor format call not found')
-        kw = fm[0][2]
-        B = 'self.__bytearray__()'
-        rep.check(kw.get('crc') == "base64.b64encode(INT(3;self.crc24(%s))).decode('latin-1')" % B, 'C10.2', 'Armorable.__str__', 'crc = %s' % kw.get('crc'),
-                  'the checksum is the CRC-24 of the binary export, written as exactly three octets (leading zero octets kept), base64 encoded',
-                  where=f.where, expected="b64encode(int_to_bytes(crc24(bytes(self)), 3))", found=kw.get('crc'))
-        pk = kw.get('packet', '')
-        P = "base64.b64encode(%s).decode('latin-1')" % B
-        m0 = re.match(r"^'\\n'\.join\(EACH\(\$1 in range\(0, len\((.*)\), (\d+)\);SLICE\((.*);\$1;\(\$1 \+ (\d+)\)\)\)\)$", alpha(pk))
-
-        class _M(object):        # (payload in slice, width, payload in len, step)
-            def __init__(self, m):
-                self.m = m
-
-            def group(self, i):
-                return self.m.group({1: 3, 2: 4, 3: 1, 4: 2}[i])
-        m = _M(m0) if m0 else None
-        rep.check(m is not None and m.group(1) == P and m.group(3) == P, 'C10.2', 'Armorable.__str__', 'payload = %s' % pk[:90],
-                  'the payload is the base64 of the same binary export the CRC is computed over', where=f.where, found=pk)
-        if m:
-            w1, w2 = int(m.group(2)), int(m.group(4))
-            rep.check(w1 == w2 and 0 < w1 <= 76 and w1 % 4 == 0, 'C10.3', 'Armorable.__str__', 'line width %d step %d' % (w1, w2),
-                      'lines must be at most 76 characters and cut on a base64 quantum; step and width must agree (no octet lost or repeated)',
-                      where=f.where, expected='<= 76', found=(w1, w2))
-            body = regexast.subpattern(_const_regex(A)[0], 'body', _const_regex(A)[1])
-            bound = None
-            for op, av in _walk(body):
-                if op in ('MAX_REPEAT', 'MIN_REPEAT') and list(av[2]) and str(list(av[2])[0][0]) == 'IN':
-                    bound = (av[0], av[1])
-                    break
-            rep.check(bound is not None and bound[0] <= 1 and w1 <= int(bound[1]), 'C10.3', 'Armorable.__armor_regex', 'reader line bound %s' % (bound,),
-                      'the reader must accept every line length the writer produces', where=A.where, expected='{1,n} with n >= %d' % w1, found=bound)
-        rep.check(kw.get('block_type') == 'self.magic', 'C10.2', 'Armorable.__str__', 'label %s' % kw.get('block_type'), 'the label is the object\'s own magic',
-                  where=f.where)
-        hd = kw.get('headers', '')
-        rep.check("'{key}: {val}\\n'.format" in hd and 'self.ascii_headers.items()' in hd, 'C10.7', 'Armorable.__str__', 'headers %s' % hd[:80],
-                  'each supplied armor header is written as "key: value" on its own line', where=f.where)
+    selfn = _receiver(f)
+    sep_seen = None
+    width_seen = None
+    paths = [s for s in Interp(prog, Scenario(inline=noinline)).run(f) if s.raised is None]
+    if not paths:
+        raise AnalysisError('Armorable.__str__: no returning path')
+    for s in paths:
+        ps = T.pieces(render(s.ret))
+        if len(ps) == 1 and ps[0][0] == 'V':
+            raise AnalysisError('Armorable.__str__: the returned text is not built from literals the checker can read: %s' % render(s.ret)[:120])
+        text, table = T.layout(ps)
+        m = ARMOR_LAYOUT.match(text)
+        shown = T.show_pieces(ps)
+        if not rep.check(m is not None, 'C10.2', 'Armorable.__str__', 'layout %s' % shown[:160],
+                         'an armored block is: BEGIN line, headers, blank line, payload, "=" + CRC, END line', where=f.where,
+                         expected="'-----BEGIN PGP ' <label> '-----\\n' <headers> '\\n' <payload> '\\n=' <crc> '\\n-----END PGP ' <label> '-----\\n'", found=shown):
+            continue
+        l1, l2 = _sub(table, m.group('l1')), _sub(table, m.group('l2'))
+        rep.check(T.show_pieces(l1) == T.show_pieces(l2), 'C10.2', 'Armorable.__str__', 'BEGIN label %s END label %s' % (T.show_pieces(l1), T.show_pieces(l2)),
+                  'header and tail lines carry the same block label', where=f.where, expected=T.show_pieces(l1), found=T.show_pieces(l2))
+        rep.check(len(l1) == 1 and l1[0][0] == 'V' and T.show(l1[0][1]) == '%s.magic' % selfn, 'C10.2', 'Armorable.__str__', 'label %s' % T.show_pieces(l1),
+                  'the label is the object\'s own magic', where=f.where, expected='%s.magic' % selfn, found=T.show_pieces(l1))
+        # ---- payload: base64 of the binary export, wrapped
+        body = _sub(table, m.group('body'))
+        P = W = None
+        if len(body) == 1 and body[0][0] == 'J' and body[0][1] == '\n' and len(body[0][4]) == 1 and body[0][4][0][0] == 'V':
+            _, _, var, coll, inner = body[0]
+            sm = T.match(inner[0][1], 'SLICE(_P, _I, _I + _W)')
+            cm = T.match_any(coll, ['range(0, len(_Q), _S)', 'range(len(_Q))'])
+            if sm is not None and cm is not None and isinstance(var, ast.Name) and T.same(sm['_I'], var) and \
+                    isinstance(sm['_W'], ast.Constant) and isinstance(cm.get('_S', ast.Constant(value=1)), ast.Constant):
+                P, W, Q, S = sm['_P'], sm['_W'].value, cm['_Q'], cm.get('_S', ast.Constant(value=1)).value
+        if P is None and len(body) == 1 and body[0][0] == 'J' and body[0][1] == '\n' and len(body[0][4]) == 1 and body[0][4][0][0] == 'V':
+            # the export cut into slices of 3k octets, each encoded on its own: base64 works on 3-octet quanta, so this is the text cut every 4k characters
+            _, _, var, coll, inner = body[0]
+            E = b64text_of(inner[0][1])
+            sm = T.match(E, 'SLICE(_P, _I, _I + _W)') if E is not None else None
+            cm = T.match(coll, 'range(0, len(_Q), _S)')
+            if sm is not None and cm is not None and isinstance(var, ast.Name) and T.same(sm['_I'], var) and isinstance(sm['_W'], ast.Constant) and \
+                    isinstance(cm['_S'], ast.Constant) and isinstance(sm['_W'].value, int) and sm['_W'].value % 3 == 0 and is_export(sm['_P'], selfn) and \
+                    T.same(sm['_P'], cm['_Q']):
+                b64 = T.parse_term("base64.b64encode(%s).decode('latin-1')" % T.show(sm['_P']).replace('$', '_B'))
+                P, Q, W, S = b64, b64, sm['_W'].value // 3 * 4, (cm['_S'].value // 3 * 4 if cm['_S'].value % 3 == 0 else -1)
+        if P is None and len(body) == 1 and body[0][0] == 'V':
+            rm = T.match(body[0][1], "'\\n'.join(re.findall(_R, _P))")
+            if rm is not None and isinstance(rm['_R'], ast.Constant) and isinstance(rm['_R'].value, str):
+                w = _chunk_width(rm['_R'].value)
+                if w is not None:
+                    P, W, Q, S = rm['_P'], w, rm['_P'], w
+        if P is None and len(body) == 1 and body[0][0] == 'V':
+            # the stdlib line wrappers: on a text without blanks they cut exactly every `width` characters
+            tm = T.match_any(body[0][1], ["'\\n'.join(textwrap.wrap(_P, _W))", "'\\n'.join(textwrap.wrap(_P, width=_W))", "textwrap.fill(_P, _W)",
+                                          "textwrap.fill(_P, width=_W)"])
+            if tm is not None and isinstance(tm['_W'], ast.Constant):
+                P, W, Q, S = tm['_P'], tm['_W'].value, tm['_P'], tm['_W'].value
+        if P is None:
+            unwrapped = len(body) == 1 and body[0][0] == 'V' and b64text_of(body[0][1]) is not None
+            if unwrapped:
+                rep.violation('C10.3', 'Armorable.__str__', 'payload is not wrapped', 'the base64 payload must be cut into lines of at most 76 characters',
+                              where=f.where, found=T.show_pieces(body))
+                continue
+            raise AnalysisError('Armorable.__str__: payload line wrapping has an unmodelled shape: %s' % T.show_pieces(body)[:200])
+        X = b64text_of(P)
+        rep.check(X is not None and is_export(X, selfn) and T.same(P, Q), 'C10.2', 'Armorable.__str__', 'payload = %s' % T.show(P)[:90],
+                  'the payload is the base64 of the binary export the CRC is computed over, and the wrap runs over its whole length', where=f.where,
+                  expected='base64 text of %s.__bytes__()' % selfn, found='lines of %s over len(%s)' % (T.show(P), T.show(Q)))
+        rep.check(isinstance(W, int) and W == S and 0 < W <= 76 and W % 4 == 0, 'C10.3', 'Armorable.__str__', 'line width %s step %s' % (W, S),
+                  'lines must be at most 76 characters and cut on a base64 quantum; step and width must agree (no octet lost or repeated)',
+                  where=f.where, expected='<= 76', found=(W, S))
+        if isinstance(W, int) and 0 < W <= 400 and W % 4 == 0:
+            width_seen = W
+        # ---- checksum
+        crcp = _sub(table, m.group('crc'))
+        shown_crc = T.show_pieces(crcp)
+        Y = b64text_of(crcp[0][1]) if len(crcp) == 1 and crcp[0][0] == 'V' else None
+        im = T.match_any(Y, ['INT(_N, _C)', "_C.to_bytes(_N, 'big')", "_C.to_bytes(_N, byteorder='big')", "_C.to_bytes(length=_N, byteorder='big')",
+                             "int_to_bytes(_C, _N, 'big')"]) if Y is not None else None
+        enc = other_encoding(crcp[0][1]) if len(crcp) == 1 and crcp[0][0] == 'V' else None
+        cm = im and T.match_any(im['_C'], ['_R.crc24(_D)', 'crc24(_D)'])
+        if Y is None and enc is not None:
+            rep.violation('C10.2', 'Armorable.__str__', 'crc = %s' % shown_crc, 'the checksum is written in radix-64 (RFC 4648 base64, standard alphabet), not %s' % enc,
+                          where=f.where, expected='b64encode(int_to_bytes(crc24(bytes(self)), 3))', found=shown_crc)
+        elif Y is not None and im is None and not _calls_named(Y, ('crc24',)):
+            rep.violation('C10.2', 'Armorable.__str__', 'crc = %s' % shown_crc, 'the checksum line must carry the CRC-24 of the binary export', where=f.where,
+                          expected='b64encode(int_to_bytes(crc24(bytes(self)), 3))', found=shown_crc)
+        elif im is not None and not (isinstance(im['_N'], ast.Constant) and im['_N'].value == 3):
+            rep.violation('C10.2', 'Armorable.__str__', 'crc = %s' % shown_crc, 'the CRC-24 must be written as exactly three octets (leading zero octets kept)',
+                          where=f.where, expected='b64encode(int_to_bytes(crc24(bytes(self)), 3))', found=shown_crc)
+        elif Y is None or im is None or not cm:
+            raise AnalysisError('Armorable.__str__: checksum has an unmodelled shape: %s' % shown_crc[:200])
+        else:
+            n = im['_N'].value if isinstance(im['_N'], ast.Constant) else None
+            rep.check(n == 3 and is_export(cm['_D'], selfn), 'C10.2', 'Armorable.__str__', 'crc = %s' % shown_crc,
+                      'the checksum is the CRC-24 of the binary export, written as exactly three octets (leading zero octets kept), base64 encoded',
+                      where=f.where, expected="b64encode(int_to_bytes(crc24(bytes(self)), 3))", found=shown_crc)
+        # ---- header lines
+        hdr = _sub(table, m.group('hdr'))
+        ok, why = False, None
+        if len(hdr) == 1 and hdr[0][0] == 'J':
+            _, jsep, var, coll, inner = hdr[0]
+            itext, itable = T.layout(inner)
+            hm = re.match(r'^(%s)([^\n%s]*)(%s)(\n?)$' % (T.PH, T.PH[1:-1], T.PH), itext)
+            D = '%s.ascii_headers' % selfn
+            want = None
+            if isinstance(var, ast.Tuple) and len(var.elts) == 2 and T.show(coll) == D + '.items()':
+                want = list(var.elts)
+            elif isinstance(var, ast.Name) and T.show(coll) == D + '.items()':
+                want = [ast.Subscript(value=var, slice=ast.Constant(value=i), ctx=ast.Load()) for i in (0, 1)]
+            elif isinstance(var, ast.Name) and T.show(coll) in (D, D + '.keys()', 'list(%s)' % D, 'iter(%s)' % D):
+                want = [var, ast.Subscript(value=T.parse_term(D), slice=var, ctx=ast.Load())]
+            if hm is None or want is None or not all(itable[hm.group(i)][0] == 'V' for i in (1, 3)):
+                raise AnalysisError('Armorable.__str__: armor header lines have an unmodelled shape: %s' % T.show_pieces(hdr)[:200])
+            got = [T.show(ast.Tuple(elts=[var, itable[hm.group(i)][1]], ctx=ast.Load())) for i in (1, 3)]     # each slot as a function of the loop variable(s)
+            exp = [T.show(ast.Tuple(elts=[var, e], ctx=ast.Load())) for e in want]
+            sep_seen = hm.group(2)
+            ok = got == exp and jsep == '' and hm.group(4) == '\n' and sep_seen == ': '
+        elif not (len(hdr) == 1 and hdr[0][0] == 'L'):
+            raise AnalysisError('Armorable.__str__: armor header lines have an unmodelled shape: %s' % T.show_pieces(hdr)[:200])
+        rep.check(ok, 'C10.7', 'Armorable.__str__', 'headers %s' % T.show_pieces(hdr)[:120],
+                  'each supplied armor header is written as "key: value" on its own line', where=f.where,
+                  expected="''.join(<key> ': ' <value> '\\n' for key, value in self.ascii_headers.items())", found=T.show_pieces(hdr))
     # reader's crc group: exactly 4 base64 characters after '='
-    pat, flags = _const_regex(A)
-    crcg = regexast.subpattern(pat, 'crc', flags)
-    ok = crcg is not None and len(crcg) == 1 and str(crcg[0][0]) == 'MAX_REPEAT' and crcg[0][1][0] == 4 and crcg[0][1][1] == 4
-    rep.check(ok, 'C10.2', 'Armorable.__armor_regex', 'crc group %s' % (crcg,), 'the checksum line is "=" followed by exactly four base64 characters (24 bits)',
+    crcl = group_lang(A, 'crc')
+    ok = crcl is not None and regexast.lang_equal(crcl, regexast.Lang.of(B64 + '{4}'))
+    rep.check(ok, 'C10.2', 'Armorable.__armor_regex', 'crc group', 'the checksum line is "=" followed by exactly four base64 characters (24 bits)',
               where=A.where, expected='[A-Za-z0-9+/]{4}')
+    # reader accepts every body the writer can produce: W-character lines, a last line of 4..W characters with at most two pads
+    if width_seen is not None:
+        w = width_seen
+        produced = regexast.Lang.of(r'(?:%s{%d}\n)*(?:%s{4}){0,%d}(?:%s{4}|%s{3}=|%s{2}==)\n' % (B64, w, B64, w // 4 - 1, B64, B64, B64))
+        bl = group_lang(A, 'body')
+        wit = produced.witness_not_in(bl) if bl is not None else []
+        rep.check(bl is not None and wit is None, 'C10.3', 'Armorable.__armor_regex', 'reader body language includes %d-column lines' % w,
+                  'the reader must accept every line length the writer produces', where=A.where, expected='every body made of %d-character lines' % w,
+                  found=None if wit is None else 'not accepted: %r' % regexast.show_word(wit))
+    # ... and every body another RFC 4880 encoder can produce (6.3: lines of up to 76 characters)
+    bl = group_lang(A, 'body')
+    rfc = regexast.Lang.of(r'(?:%s{76}\n)*(?:%s{4}){0,18}(?:%s{4}|%s{3}=|%s{2}==)\n' % (B64, B64, B64, B64, B64))
+    wit = rfc.witness_not_in(bl) if bl is not None else []
+    rep.check(bl is not None and wit is None, 'C10.3', 'Armorable.__armor_regex', 'reader body language includes 76-column lines',
+              'the reader must accept armor lines of up to 76 characters (RFC 4880 6.3), whatever width the writer itself uses', where=A.where,
+              expected='[A-Za-z0-9+/]{1,76} per line', found=None if wit is None else 'not accepted: %r' % regexast.show_word(wit))
+    return sep_seen
 
 
-def _walk(items):
-    for op, av in items or []:
-        yield str(op), av
-        n = str(op)
-        if n in ('MAX_REPEAT', 'MIN_REPEAT'):
-            for x in _walk(list(av[2])):
-                yield x
-        elif n == 'SUBPATTERN':
-            for x in _walk(list(av[3])):
-                yield x
-        elif n == 'BRANCH':
-            for br in av[1]:
-                for x in _walk(list(br)):
-                    yield x
-
-
-def _const_regex(A):
-    v = A.attrs.get('__armor_regex')
-    if not (isinstance(v, ast.Call) and dotted(v.func) == 're.compile' and v.args):
-        raise AnalysisError('Armorable.__armor_regex is not a re.compile(...) literal')
-    pat = ast.literal_eval(v.args[0])
-    flags = 0
-    for k in v.keywords:
-        if k.arg == 'flags':
-            for n in ast.walk(k.value):
-                if isinstance(n, ast.Attribute):
-                    flags |= int(getattr(re, n.attr))
-    return pat, flags
+# ------------------------------------------------------------------------------------------------ C10.4
+def _label(s):
+    """The literal text a path returns, or None."""
+    if s.raised is not None or s.ret is None:
+        return None
+    ps = T.pieces(T.fold(T.parse_term(render(s.ret))) or render(s.ret))
+    if len(ps) == 1 and ps[0][0] == 'L':
+        return ps[0][1]
+    if not ps:
+        return ''
+    return None
 
 
 def labels(rep, prog):
-    want = {'PGPSignature': ["'SIGNATURE'"], 'PGPMessage': None, 'PGPKey': None}
     m = prog.method('pgpy.pgp', 'PGPSignature', 'magic')
     for s in Interp(prog, Scenario(inline=noinline)).run(m):
-        rep.check(render(s.ret) == "'SIGNATURE'", 'C10.4', 'PGPSignature.magic', render(s.ret), 'a detached signature is a PGP SIGNATURE block', where=m.where)
+        rep.check(_label(s) == 'SIGNATURE', 'C10.4', 'PGPSignature.magic', render(s.ret), 'a detached signature is a PGP SIGNATURE block', where=m.where,
+                  expected='SIGNATURE', found=render(s.ret))
     m = prog.method('pgpy.pgp', 'PGPMessage', 'magic')
+    selfn = _receiver(m)
     for t, lab in (('cleartext', 'SIGNATURE'), ('literal', 'MESSAGE'), ('encrypted', 'MESSAGE')):
-        for s in Interp(prog, Scenario(bind={'self.type': Const(t)}, inline=noinline)).run(m):
-            rep.check(render(s.ret) == repr(lab), 'C10.4', 'PGPMessage.magic', '%s -> %s' % (t, render(s.ret)),
+        for s in Interp(prog, Scenario(bind={'%s.type' % selfn: Const(t)}, inline=noinline)).run(m):
+            rep.check(_label(s) == lab, 'C10.4', 'PGPMessage.magic', '%s -> %s' % (t, render(s.ret)),
                       'a %s message is armored as PGP %s' % (t, lab), where=m.where, expected=lab, found=render(s.ret), scenario=t)
     m = prog.method('pgpy.pgp', 'PGPKey', 'magic')
-    src = ast.unparse(m.node)
-    rep.check("'{:s} KEY BLOCK'" in src and "'PUBLIC'" in src and "'PRIVATE'" in src, 'C10.4', 'PGPKey.magic', 'PUBLIC/PRIVATE KEY BLOCK',
-              'keys are armored as PGP PUBLIC KEY BLOCK / PGP PRIVATE KEY BLOCK (polarity under C07.6)', where=m.where)
+    selfn = _receiver(m)
+    for kcls, lab in (('PubKeyV4', 'PUBLIC KEY BLOCK'), ('PubSubKeyV4', 'PUBLIC KEY BLOCK'), ('PrivKeyV4', 'PRIVATE KEY BLOCK'), ('PrivSubKeyV4', 'PRIVATE KEY BLOCK')):
+        if not prog.classes_by_name.get(kcls):
+            raise AnalysisError('key packet class %s vanished' % kcls)
+        key = Sym('%s._key' % selfn, types={kcls}, nonnull=True)
+        outs = Interp(prog, Scenario(bind={'%s._key' % selfn: key}, inline=noinline)).run(m)
+        got = sorted(set(str(_label(s)) for s in outs))
+        rep.check(got == [lab], 'C10.4', 'PGPKey.magic', '%s -> %s' % (kcls, got),
+                  'keys are armored as PGP PUBLIC KEY BLOCK / PGP PRIVATE KEY BLOCK by the kind of their key packet', where=m.where,
+                  expected=lab, found=[render(s.ret) for s in outs], scenario=kcls)
+
+
+# ------------------------------------------------------------------------------------------------ C10.5
+def unarmor_call(prog, f):
+    """Rendered text of the ascii_unarmor(...) call of a parse method (found on the paths, not in the source)."""
+    hits = set()
+    for s in Interp(prog, Scenario(inline=noinline)).run(f):
+        for c in s.calls:
+            if c[0].split('.')[-1] == 'ascii_unarmor' and len(c[1]) == 1:
+                hits.add('%s(%s)' % (c[0], c[1][0]))
+    if len(hits) != 1:
+        raise AnalysisError('%s: expected exactly one ascii_unarmor call, found %s' % (f.qualname, sorted(hits)))
+    return hits.pop()
+
+
+def _consumes(prog, f, s):
+    """Does the path take anything from the data before it ends (packet constructed, object composed, state stored)?"""
+    selfn = _receiver(f)
+    for e in s.events:
+        if e[0] == 'ior':
+            return True
+        if e[0] == 'store' and e[1].startswith('%s.' % selfn):
+            return True
+        if e[0] == 'call':
+            last = e[1].split('.')[-1]
+            if last in ('__or__', '__ior__', 'parse'):
+                return True
+            if re.match(r'^[A-Za-z_]\w*$', e[1]):
+                r = prog.lookup(f.module, e[1])
+                if hasattr(r, 'mro') and any(c.name == 'Packet' for c in r.mro()):
+                    return True
+    return False
+
+
+def verdict_for_label(prog, f, ua, label, cleartext=None):
+    """'reject' / 'accept' / 'depends' and the paths, for a block whose armor label is `label` (None: binary input)."""
+    bind = {"%s['magic']" % ua: Const(label),
+            "%s['cleartext']" % ua: cleartext if cleartext is not None else Sym("%s['cleartext']" % ua, nonnull=True)}
+    outs = Interp(prog, Scenario(bind=bind, inline=noinline)).run(f)
+    rej = [s for s in outs if s.raised is not None and not _consumes(prog, f, s)]
+    if outs and len(rej) == len(outs):
+        return 'reject', outs
+    if not rej:
+        return 'accept', outs
+    return 'depends', outs
+
+
+def _paths_shape(outs):
+    return tuple(sorted((s.raised or '', tuple((t, v) for t, v, sk in s.facts)) for s in outs))
+
+
+def _divergence(outs):
+    """The first decision on which a rejecting and a non-rejecting path differ."""
+    rej = [s for s in outs if s.raised is not None]
+    acc = [s for s in outs if s.raised is None] or [s for s in outs if s not in rej]
+    for a in rej:
+        for b in acc:
+            for (t1, v1, _), (t2, v2, _) in zip(a.facts, b.facts):
+                if t1 != t2:
+                    break
+                if v1 != v2:
+                    return t1
+    return None
+
+
+def _undecided_about(outs, label):
+    """The decision that separates rejecting from accepting paths is about the (constant) label itself: the interpreter met a test
+    on a known value it has no model for - an analysis gap, not a property of the code."""
+    t = _divergence(outs)
+    return t is not None and (repr(label) in t if label is not None else re.search(r'\bNone\b', t) is not None)
+
+
+def require_traceable_label(cls, runs):
+    """The scenarios pin the label the reader found (the 'magic' entry).  If the paths are the same whatever label is pinned although
+    they do decide something about that entry, the code reads it by a route the interpreter does not follow: an analysis gap."""
+    shapes = set(_paths_shape(outs) for v, outs in runs.values())
+    if len(shapes) == 1:
+        for v, outs in runs.values():
+            for s in outs:
+                for t, val, sk in s.facts:
+                    if "'magic'" in t or '"magic"' in t:
+                        raise AnalysisError('%s.parse: the armor label is read in a way the checker cannot follow: %s' % (cls, t[:200]))
 
 
 def kind_checks(rep, prog):
     cases = {
-        'PGPSignature': ({'SIGNATURE': True, 'MESSAGE': False, 'PUBLIC KEY BLOCK': False, 'PRIVATE KEY BLOCK': False}, 'packet'),
-        'PGPMessage': ({'SIGNATURE': True, 'MESSAGE': True, 'PUBLIC KEY BLOCK': False, 'PRIVATE KEY BLOCK': False}, 'packet'),
-        'PGPKey': ({'SIGNATURE': False, 'MESSAGE': False, 'PUBLIC KEY BLOCK': True, 'PRIVATE KEY BLOCK': True}, 'data'),
+        'PGPSignature': {'SIGNATURE': True, 'MESSAGE': False, 'PUBLIC KEY BLOCK': False, 'PRIVATE KEY BLOCK': False},
+        'PGPMessage': {'SIGNATURE': True, 'MESSAGE': True, 'PUBLIC KEY BLOCK': False, 'PRIVATE KEY BLOCK': False},
+        'PGPKey': {'SIGNATURE': False, 'MESSAGE': False, 'PUBLIC KEY BLOCK': True, 'PRIVATE KEY BLOCK': True},
     }
-    for cls, (table, param) in cases.items():
+    # labels of no kind at all, chosen next to the real ones (a part of one, one with a letter more, a word of one): nobody may accept them
+    for table in cases.values():
+        for bogus in ('ARMORED FILE', 'ARMORED BLOCK', 'MESSAGES', 'SIGNATURES', 'SIGN', 'MESS', 'MESSAGE, PART 1/2', 'PUBLIC', 'BLOCK'):
+            table[bogus] = False
+    for cls, table in cases.items():
         f = prog.method('pgpy.pgp', cls, 'parse')
         rep.saw(fn=f)
-        # the guard: the first `if` of the function whose body raises ValueError and whose test mentions the magic
-        guard = None
-        for n in f.node.body:
-            if isinstance(n, ast.If) and 'magic' in ast.unparse(n.test) and any(isinstance(x, ast.Raise) for x in n.body):
-                guard = n
-                break
-        if guard is None:
-            rep.violation('C10.5', '%s.parse' % cls, 'no kind check', 'a block of the wrong kind is not rejected', where=f.where)
-            continue
-        # nothing is parsed before it
-        before = f.node.body[:f.node.body.index(guard)]
-        early = [ast.unparse(c) for st in before for c in ast.walk(st) if isinstance(c, ast.Call) and dotted(c.func) in ('Packet', 'self.__or__')]
-        rep.check(not early, 'C10.5', '%s.parse' % cls, 'packets parsed before the kind check: %s' % early, 'the kind check must come before any packet is consumed',
-                  where=f.where)
-        ua = "self.ascii_unarmor(%s)" % param
+        ua = unarmor_call(prog, f)
+        runs = {}
         for label, accept in list(table.items()) + [(None, True)]:
-            fr = Frame(Interp(prog, Scenario()), f, 0)
-            st = State()
-            st.env["%s['magic']" % ua] = Const(label)
-            st.env['unarmored'] = Sym(ua)
-            st.env['self'] = Sym('self', cls=f.cls, nonnull=True)
-            d = fr.decide(guard.test, st)
+            runs[label] = verdict_for_label(prog, f, ua, label)
+        require_traceable_label(cls, runs)
+        for label, accept in list(table.items()) + [(None, True)]:
+            v, outs = runs[label]
             scen = 'label %r' % (label,)
-            rep.check(d is not None and (d is False) == accept, 'C10.5', '%s.parse' % cls, '%s -> %s' % (scen, 'raise' if d else 'accepted' if d is False else 'undecided'),
-                      '%s must %s a block labelled %r' % (cls, 'accept' if accept else 'reject', label), where='%s:%d' % (f.module.relpath, guard.lineno),
-                      expected='accept' if accept else 'raise ValueError', found='raise' if d else 'accepted', scenario=scen)
-        rz = [x for x in guard.body if isinstance(x, ast.Raise)]
-        rep.check(bool(rz) and 'ValueError' in ast.unparse(rz[0]), 'C10.5', '%s.parse' % cls, 'reaction %s' % (ast.unparse(rz[0])[:60] if rz else None),
-                  'a wrong kind is reported as ValueError', where=f.where)
-    # cleartext branch needs the cleartext group itself
+            if v == 'depends' and _undecided_about(outs, label):
+                raise AnalysisError('%s.parse: the kind check is not decidable for label %r: %s' % (cls, label, _divergence(outs)))
+            late = [s for s in outs if s.raised is not None and _consumes(prog, f, s)]
+            found = {'reject': 'raise', 'accept': 'accepted', 'depends': 'raise on some paths only'}[v]
+            if not accept and v == 'accept' and late and len(late) == len(outs):
+                found = 'raises only after packets were consumed'
+            rep.check(v == ('accept' if accept else 'reject'), 'C10.5', '%s.parse' % cls, '%s -> %s' % (scen, found),
+                      '%s must %s a block labelled %r%s' % (cls, 'accept' if accept else 'reject', label, '' if accept else ' before any packet is consumed'),
+                      where=f.where, expected='accept' if accept else 'raise ValueError', found=found, scenario=scen)
+            if not accept and v == 'reject':
+                kinds = sorted(set(s.raised.split('(')[0] for s in outs))
+                rep.check(kinds == ['ValueError'], 'C10.5', '%s.parse' % cls, 'reaction %s' % kinds, 'a wrong kind is reported as ValueError',
+                          where=f.where, expected='ValueError', found=kinds, scenario=scen)
+    # a SIGNATURE block is a cleartext message only through its signed-message part
     f = prog.method('pgpy.pgp', 'PGPMessage', 'parse')
-    du = [c for c in ast.walk(f.node) if isinstance(c, ast.Call) and isinstance(c.func, ast.Attribute) and c.func.attr == 'dash_unescape']
-    rep.check(len(du) == 1 and ast.unparse(du[0].args[0]) == "unarmored['cleartext']", 'C10.5', 'PGPMessage.parse',
-              'cleartext source %s' % [ast.unparse(c.args[0]) for c in du],
+    ua = unarmor_call(prog, f)
+    src = "%s['cleartext']" % ua
+    v, outs = verdict_for_label(prog, f, ua, 'SIGNATURE')
+    require_traceable_label('PGPMessage', {'SIGNATURE': (v, outs), 'MESSAGE': verdict_for_label(prog, f, ua, 'MESSAGE')})
+    args = sorted(set(c[1][0] for s in outs for c in s.calls if c[0].split('.')[-1] == 'dash_unescape' and c[1]))
+    rep.check(args == [src], 'C10.5', 'PGPMessage.parse', 'cleartext source %s' % args,
               'a SIGNATURE block is a cleartext message only through its signed-message preamble: the text must be that group, with no fallback',
-              where=f.where, expected="self.dash_unescape(unarmored['cleartext'])", found=[ast.unparse(c) for c in du])
+              where=f.where, expected="self.dash_unescape(unarmored['cleartext'])", found=args)
+    v, outs = verdict_for_label(prog, f, ua, 'SIGNATURE', cleartext=Const(None))
+    bad = []
+    for s in outs:
+        if s.raised is not None and not _consumes(prog, f, s):
+            continue
+        a = [c[1][0] for c in s.calls if c[0].split('.')[-1] == 'dash_unescape' and c[1]]
+        if a != ['None']:
+            bad.append(a)
+    rep.check(not bad, 'C10.5', 'PGPMessage.parse', 'SIGNATURE block without signed-message part: %s' % (bad[:2] or 'rejected'),
+              'a detached signature block (no cleartext part) must not be read as a cleartext message with a made-up text', where=f.where,
+              expected='dash_unescape(None) fails / explicit raise', found=bad[:3], scenario='label SIGNATURE, no cleartext group')
 
 
-def reader(rep, prog, A):
+# ------------------------------------------------------------------------------------------------ C10.6 / C10.7 reader
+def expand_skeleton(sk):
+    """A decision skeleton in which opaque atoms that are themselves boolean terms (a comparison kept in a local and tested later)
+    are opened up: ('expr', '(a != b)') -> ('cmp', '!=', 'a', 'b')."""
+    if sk is None:
+        return None
+    if sk[0] == 'not':
+        return ('not', expand_skeleton(sk[1]))
+    if sk[0] in ('and', 'or'):
+        return (sk[0], [expand_skeleton(x) for x in sk[1]])
+    if sk[0] == 'expr':
+        node = T.parse_term(sk[1])
+        if node is not None:
+            return _term_skeleton(node, sk)
+    return sk
+
+
+def _term_skeleton(node, orig):
+    if isinstance(node, ast.UnaryOp) and isinstance(node.op, ast.Not):
+        return ('not', _term_skeleton(node.operand, ('expr', T.show(node.operand))))
+    if isinstance(node, ast.BoolOp):
+        return ('or' if isinstance(node.op, ast.Or) else 'and', [_term_skeleton(v, ('expr', T.show(v))) for v in node.values])
+    if isinstance(node, ast.Compare) and len(node.ops) == 1:
+        ops = {ast.Eq: '==', ast.NotEq: '!=', ast.Is: 'is', ast.IsNot: 'is not', ast.In: 'in', ast.NotIn: 'not in', ast.Lt: '<', ast.LtE: '<=', ast.Gt: '>', ast.GtE: '>='}
+        return ('cmp', ops[type(node.ops[0])], T.show(node.left), T.show(node.comparators[0]))
+    return orig
+
+
+def _ascii_oracle(t):
+    return True if re.search(r'\bis_ascii\(', t) else None
+
+
+def regex_calls(s, what='__armor_regex'):
+    """(method, argument texts) of the calls that apply the armor expression on this path."""
+    out = []
+    for c in s.calls:
+        parts = c[0].rsplit('.', 1)
+        if len(parts) == 2 and parts[0].endswith(what):
+            out.append((parts[1], c[1]))
+        elif parts[0] == 're' and len(parts) == 2 and c[1] and c[1][0].endswith(what):
+            out.append((parts[1], c[1][1:]))
+    return out
+
+
+def reader(rep, prog, A, writer_sep):
     f = A.methods.get('ascii_unarmor')
+    g = A.methods.get('is_armor')
+    if f is None or g is None:
+        raise AnalysisError('Armorable.ascii_unarmor / is_armor vanished')
     rep.saw(fn=f)
-    src = ast.unparse(f.node)
-    # located with search (armor may be surrounded by other text); is_armor and ascii_unarmor agree
+    p = _own_params(f)[0]
+    text = Sym(p, types={'str'}, nonnull=True)
+    paths = Interp(prog, Scenario(args={p: text}, oracle=_ascii_oracle, inline=noinline)).run(f)
+    # ---- located with search (armor may be surrounded by other text); is_armor and ascii_unarmor agree
     meths = []
-    for fn in (A.methods.get('is_armor'), f):
-        for c in ast.walk(fn.node):
-            if isinstance(c, ast.Call) and isinstance(c.func, ast.Attribute) and '__armor_regex' in ast.unparse(c.func.value):
-                meths.append((fn.name, c.func.attr))
-    rep.check(len(meths) == 2 and all(m == 'search' for _, m in meths), 'C10.7', 'Armorable.ascii_unarmor', 'regex methods %s' % meths,
+    for fn, ps in ((g, Interp(prog, Scenario(inline=noinline)).run(g)), (f, paths)):
+        used = sorted(set(m for s in ps for m, _ in regex_calls(s)))
+        if not used:
+            raise AnalysisError('%s does not apply the armor expression' % fn.qualname)
+        meths.extend((fn.name, m) for m in used)
+    rep.check(all(m == 'search' for _, m in meths), 'C10.7', 'Armorable.ascii_unarmor', 'regex methods %s' % meths,
               'an armored block is found anywhere in the input (surrounding non-armor text is allowed), consistently in is_armor and ascii_unarmor',
               where=f.where, expected='search in both', found=meths)
-    # CRC comparison and reaction
-    ifs = [n for n in ast.walk(f.node) if isinstance(n, ast.If) and 'crc24' in ast.unparse(n.test)]
-    ok = len(ifs) == 1
-    rep.check(ok, 'C10.6', 'Armorable.ascii_unarmor', 'crc comparison sites %d' % len(ifs), 'the decoded CRC must be compared with the CRC of the decoded body',
-              where=f.where)
-    if ok:
-        t = ifs[0].test
-        tt = ast.unparse(t).replace(' ', '')
-        good = tt in ("Armorable.crc24(m['body'])!=m['crc']", "m['crc']!=Armorable.crc24(m['body'])", "self.crc24(m['body'])!=m['crc']")
-        rep.check(good, 'C10.6', 'Armorable.ascii_unarmor', 'test %s' % ast.unparse(t), 'a mismatch (not a match) must trigger the report', where=f.where,
-                  expected="crc24(m['body']) != m['crc']", found=ast.unparse(t))
-        react = [ast.unparse(x) for x in ifs[0].body]
-        rep.check(any('warnings.warn' in r or r.startswith('raise') for r in react), 'C10.6', 'Armorable.ascii_unarmor', 'reaction %s' % react,
-                  'a payload that does not match its CRC must be reported (warning or error)', where=f.where)
-    rep.check("m['crc'] = Header.bytes_to_int(base64.b64decode(m['crc'].encode()))" in src, 'C10.6', 'Armorable.ascii_unarmor', 'crc decode',
-              'the CRC line is base64-decoded to the 24-bit value', where=f.where)
-    rep.check("m['body'] = bytearray(base64.b64decode(m['body'].encode()))" in src, 'C10.6', 'Armorable.ascii_unarmor', 'body decode',
-              'the body is base64-decoded to the binary export', where=f.where)
-    # header line separator agreement
-    fa = [c for c in ast.walk(f.node) if isinstance(c, ast.Call) and dotted(c.func) == 're.findall']
-    ok = len(fa) == 1 and isinstance(fa[0].args[0], ast.Constant)
-    if ok:
-        pat = fa[0].args[0].value
-        lits = ''.join(chr(av) for op, av in regexast.summary(pat, re.MULTILINE) if op == 'LITERAL')
-        ok = ': ' in lits and 'key' in regexast.find_groups(pat) and 'value' in regexast.find_groups(pat)
-    rep.check(ok, 'C10.7', 'Armorable.ascii_unarmor', 'header line pattern', 'header lines are split at ": " - the separator the writer uses', where=f.where)
-    # the tail label must equal the head label
-    pat, flags = _const_regex(A)
-    has_backref = any(op == 'GROUPREF' for op, av in regexast.walk(pat, flags))
-    rep.check(has_backref and 'magic' in regexast.find_groups(pat, flags), 'C10.7', 'Armorable.__armor_regex', 'END label = BEGIN label (backreference)',
+    # ---- CRC comparison and reaction, on every path that decodes a CRC line
+    tree, groups = armor_tree(A)
+    mandatory = Mandatory(n for n in groups if regexast.group_is_mandatory(tree, groups[n]))
+    for n in mandatory:
+        try:
+            if not regexast.Lang(regexast.find_group(tree, groups[n])[0][2]).accepts(''):
+                mandatory.nonempty.append(n)
+        except regexast.Unsupported:
+            pass
+    paths = [s for s in paths if not _infeasible(s, mandatory)]
+    crc_paths = [s for s in paths if any(_uses_group(c, 'crc') for c in s.calls)]
+    rep.check(bool(crc_paths), 'C10.6', 'Armorable.ascii_unarmor', 'paths decoding the CRC line: %d' % len(crc_paths),
+              'the decoded CRC must be compared with the CRC of the decoded body', where=f.where)
+    n_cmp = 0
+    pol_bad = []
+    react_bad = []
+    for s in crc_paths:
+        hit = None
+        for t, val, sk in s.facts:
+            sk = expand_skeleton(sk)
+            for a in atoms(sk):
+                if a[0] == 'cmp' and a[1] in ('==', '!=') and _crc_sides(a[2], a[3]):
+                    hit = (t, val, sk, a)
+        if hit is None:
+            continue
+        n_cmp += 1
+        t, val, sk, a = hit
+        equal_means = a[1] == '=='
+        # is the decision taken on this path consistent with the two CRCs being different / being equal?  (the other atoms of a
+        # compound test are unknown unless they ask for the presence of something that is always there)
+        on_diff = eval_skel(sk, lambda at: ((not equal_means) if at is a else _group_presence(at, mandatory)))
+        on_equal = eval_skel(sk, lambda at: (equal_means if at is a else _group_presence(at, mandatory)))
+        may_differ = on_diff is None or on_diff == val
+        may_agree = on_equal is None or on_equal == val
+        reported = s.raised is not None or _reports_after(s, t)
+        if may_differ and not reported:
+            react_bad.append('a path on which the CRCs may differ ends without warning / error: (%s) = %s' % (t[-100:], val))
+        if reported and not may_differ and may_agree:
+            pol_bad.append('%s = %s reports although the CRCs agree' % (t[-100:], val))
+    rep.check(bool(crc_paths) and n_cmp == len(crc_paths), 'C10.6', 'Armorable.ascii_unarmor', 'crc comparison on %d of %d CRC paths' % (n_cmp, len(crc_paths)),
+              'crc24(decoded body) is compared with the decoded CRC value on every path that has a CRC line', where=f.where,
+              expected="crc24(b64decode(body)) != bytes_to_int(b64decode(crc))")
+    rep.check(not pol_bad, 'C10.6', 'Armorable.ascii_unarmor', 'test polarity %s' % pol_bad[:1], 'a mismatch (not a match) must trigger the report', where=f.where,
+              expected="crc24(m['body']) != m['crc']", found=pol_bad[:2])
+    rep.check(not react_bad, 'C10.6', 'Armorable.ascii_unarmor', 'reaction %s' % react_bad[:1],
+              'a payload that does not match its CRC must be reported (warning or error)', where=f.where, found=react_bad[:2])
+    # ---- what is handed back as body / crc
+    for name, need, what in (('body', ('b64decode',), 'the body is base64-decoded to the binary export'),
+                             ('crc', ('b64decode', 'bytes_to_int|from_bytes'), 'the CRC line is base64-decoded to the 24-bit value')):
+        vals = set()
+        for s in crc_paths:
+            v = _returned_entry(s, name)
+            vals.add(v)
+        ok = bool(vals) and None not in vals
+        for v in vals:
+            node = T.parse_term(v) if v is not None else None
+            if node is None:
+                ok = False
+                continue
+            for alt in need:
+                if not _calls_named(node, tuple(alt.split('|'))):
+                    ok = False
+            if not refs_group(node, name):
+                ok = False
+        rep.check(ok, 'C10.6', 'Armorable.ascii_unarmor', '%s decode' % name, what, where=f.where, found=sorted(str(v)[:120] for v in vals))
+    # ---- header line separator agreement
+    seps = set()
+    for s in paths:
+        for c in s.calls:
+            if c[0] in ('re.findall', 're.finditer', 're.match', 're.fullmatch', 're.search') and len(c[1]) >= 2 and _mentions_group(c[1][1], 'headers'):
+                try:
+                    pat = ast.literal_eval(c[1][0])
+                except Exception:
+                    raise AnalysisError('Armorable.ascii_unarmor: header line pattern is not a literal: %s' % c[1][0][:80])
+                fl = flags_of(c[2].get('flags')) | (flags_of(c[1][2]) if c[0] in ('re.findall', 're.finditer', 're.match', 're.fullmatch', 're.search') and len(c[1]) > 2 else 0)
+                seps.add(_pattern_separator(pat, fl))
+            elif c[0].split('.')[-1] in ('split', 'partition') and c[1] and _is_header_line(s, c[0]):
+                try:
+                    seps.add(ast.literal_eval(c[1][0]))
+                except Exception:
+                    seps.add(None)
+    if not seps:
+        raise AnalysisError('Armorable.ascii_unarmor: no header line splitting found')
+    rep.check(seps == {': '} and (writer_sep is None or seps == {writer_sep}), 'C10.7', 'Armorable.ascii_unarmor', 'header line separator %s' % sorted(map(repr, seps)),
+              'header lines are split at ": " - the separator the writer uses', where=f.where, expected=repr(writer_sep or ': '), found=sorted(map(repr, seps)))
+    # ---- the tail label must equal the head label
+    ok = False
+    flat = list(regexast.strip_groups(tree))
+    for i, nd in enumerate(flat):
+        if nd[0] == 'ref' and nd[1] == groups.get('magic'):
+            lit = ''
+            j = i - 1
+            while j >= 0 and flat[j][0] == 'set' and len(flat[j][1]) == 1:
+                lit = chr(next(iter(flat[j][1]))) + lit
+                j -= 1
+            if lit.endswith('END PGP '):
+                ok = True
+    rep.check(ok and 'magic' in groups, 'C10.7', 'Armorable.__armor_regex', 'END label = BEGIN label (backreference)',
               'the tail line must carry the same label as the header line', where=A.where)
+
+
+class Mandatory(list):
+    """Names of the groups that take part in every match of the armor expression; .nonempty: those that cannot match ''."""
+    def __init__(self, it=()):
+        list.__init__(self, it)
+        self.nonempty = []
+
+
+def _infeasible(s, mandatory):
+    """The path assumes that a group which takes part in every match of the armor expression is None."""
+    for t, val, sk in s.facts:
+        if sk is not None and sk[0] == 'cmp' and sk[1] in ('is', 'is not', '==', '!=') and sk[3] == 'None':
+            node = T.parse_term(sk[2])
+            is_none = val if sk[1] in ('is', '==') else (not val)
+            if is_none and node is not None and any(_is_group_ref(node, n) for n in mandatory):
+                return True
+        if sk is not None and sk[0] == 'expr' and val is False:
+            node = T.parse_term(sk[1])
+            if node is not None and any(_is_group_ref(node, n) for n in mandatory.nonempty):
+                return True
+    return False
+
+
+def _group_presence(atom, mandatory):
+    """Truth value of an atom that asks whether a group which takes part in every match is (not) None; None for any other atom."""
+    if atom[0] == 'cmp' and atom[1] in ('is', 'is not', '==', '!=') and atom[3] == 'None':
+        node = T.parse_term(atom[2])
+        if node is not None and any(_is_group_ref(node, n) for n in mandatory):
+            return atom[1] in ('is not', '!=')
+        if isinstance(node, ast.Call) and _calls_named(node, ('bytes_to_int', 'from_bytes', 'int', 'len', 'bytearray', 'bytes', 'b64decode')) and \
+                _calls_named(node, ('bytes_to_int', 'from_bytes', 'int', 'len', 'bytearray', 'bytes', 'b64decode'))[0] is node:
+            return atom[1] in ('is not', '!=')         # the result of a conversion is never None
+    if atom[0] == 'expr':
+        node = T.parse_term(atom[1])
+        if node is not None and any(_is_group_ref(node, n) for n in mandatory.nonempty):
+            return True
+    return None
+
+
+def _is_group_ref(node, name):
+    if isinstance(node, ast.Subscript) and isinstance(node.slice, ast.Constant) and node.slice.value == name:
+        return True
+    return isinstance(node, ast.Call) and isinstance(node.func, ast.Attribute) and node.func.attr in ('group', 'get') and len(node.args) == 1 and \
+        isinstance(node.args[0], ast.Constant) and node.args[0].value == name
+
+
+def _uses_group(call, name):
+    """Does a call event take the named regex group as receiver or argument (i.e. is the group decoded on this path)?"""
+    for t in [call[0]] + list(call[1]):
+        if ("'%s'" % name) in t or ('"%s"' % name) in t:
+            node = T.parse_term(t)
+            if node is not None and refs_group(node, name):
+                return True
+    return False
+
+
+def _mentions_group(text, name):
+    node = T.parse_term(text)
+    return node is not None and refs_group(node, name)
+
+
+def _is_header_line(s, ftext):
+    node = T.parse_term(ftext)
+    return node is not None and refs_group(node, 'headers')
+
+
+def _crc_sides(l, r):
+    """One side is crc24(<decoded body group>), the other the integer decoded from the crc group."""
+    for a, b in ((l, r), (r, l)):
+        na, nb = T.parse_term(a), T.parse_term(b)
+        if na is None or nb is None:
+            continue
+        ca = _calls_named(na, ('crc24',))
+        if ca and all(refs_group(c, 'body') and _calls_named(c, ('b64decode',)) for c in ca) and not refs_group(na, 'crc') and \
+                refs_group(nb, 'crc') and _calls_named(nb, ('b64decode',)) and _calls_named(nb, ('bytes_to_int', 'from_bytes')) and \
+                not _calls_named(nb, ('crc24',)):
+            return True
+    return False
+
+
+def _reports_after(s, fact_text):
+    """A warning / logging call recorded on the path after the decision `fact_text` was taken (events are ordered)."""
+    # the decision itself is not an event: locate the last call that computes one of its sides (crc24) and look behind it
+    idx = -1
+    for i, e in enumerate(s.events):
+        if e[0] == 'call' and e[1].split('.')[-1] == 'crc24':
+            idx = i
+    for e in s.events[idx + 1:]:
+        if e[0] == 'call' and (e[1] in ('warnings.warn', 'warn') or e[1].split('.')[-1] in ('warn', 'warning', 'error')):
+            return True
+        if e[0] == 'raise':
+            return True
+    return False
+
+
+def _returned_entry(s, name):
+    """Rendered value of the entry `name` of the mapping the path returns (stores into the returned mapping, else its dict display)."""
+    if s.ret is None or s.raised is not None:
+        return None
+    rt = render(s.ret)
+    val = None
+    for path, vt, line, v in s.stores:
+        if path in ("%s['%s']" % (rt, name), '%s["%s"]' % (rt, name)):
+            val = vt
+    if val is not None:
+        return val
+    node = T.parse_term(rt)
+    if isinstance(node, ast.Dict):
+        for k, v in zip(node.keys, node.values):
+            if isinstance(k, ast.Constant) and k.value == name:
+                return T.show(v)
+    return None
+
+
+def _pattern_separator(pat, flags):
+    """Literal text between the first and the second capture group of a header-line pattern (None if it is not literal)."""
+    try:
+        tree, p = regexast.norm_pattern(pat, flags)
+    except regexast.Unsupported:
+        return None
+    top = [nd for nd in tree if nd[0] != 'at']
+    idx = [i for i, nd in enumerate(top) if nd[0] == 'grp']
+    if len(idx) < 2:
+        return None
+    lit = ''
+    for nd in top[idx[0] + 1:idx[1]]:
+        if nd[0] == 'set' and len(nd[1]) == 1:
+            lit += chr(next(iter(nd[1])))
+        else:
+            return None
+    return lit
